@@ -58,6 +58,10 @@ CLAIMED = {
   "Runtime monitoring: the five loaders are driven with documents rendered by harness writers (sizes across the 1000-line / 8192-triple chunk boundaries, prefix declarations at the top / repeated / per block, ; and , groups, multi-line statements, CRLF, comments, duplicates) into seven kinds of prior database inside rayon pools of 1, 2, 4 and 16 threads; the lexical snapshot after the load must equal the snapshot before plus exactly the triples the writer recorded, the same triples in different formats must load identically, results must not depend on the pool size, and a second load must be idempotent. Failures are attributed by re-loading 1000-line blocks in isolation and by re-runs that vary size / prior / threads.",
   "Trusted: the document writers of c13.rs (the oracle is what the writer recorded, no parser involved). Blank nodes, escapes, language tags and datatypes are left to C14.",
   "runtime monitor: writer-recorded triple sets vs. lexical snapshots across chunk boundaries, priors, formats and thread pools", '4/C13'),
+ 'C14': ('exploration',
+  "Runtime monitoring with exhaustively enumerated token sets: databases are filled at id level (no text involved), exported with generate_nquads / generate_ntriples / generate_turtle and re-imported into an empty database; the lexical quad set must be reproduced (all graphs for N-Quads, default graph otherwise, up to a blank-node bijection). Workload: 107 hostile literal tokens x 4 placements x 5 term positions x 3 formats and 27 IRI parts x 6 shapes (both exhaustive), token pairs, prefix tables with awkward names, datasets across the 1000-line reader chunk, random datasets with blank nodes in every position and quoted triples nested to depth 3. A failing dataset is taken apart by experiment (quad, object list, subject group, character classes, placement, export-vs-import side via an independent reference reader/writer) to name an irreducible cause.",
+  "Trusted: the id-level source snapshot, the independent reference reader/serialiser of c14.rs, the IRI validity check that enforces the quantifier (valid IRIs; literals that cannot be mistaken for an IRI, blank node or quoted triple).",
+  "runtime monitor: export/re-import round trip against the id-level source snapshot, exhaustive hostile-token matrix, experimental cause isolation", '4/C14'),
  'C15': ('exploration',
   "Runtime monitoring with online shadow bijections: random call sequences on Dictionary / QuotedTripleStore / encode_term_star (adversarial strings, nested quoted terms in five spellings, ids at the range limits) are checked after every call against a shadow map (same term same id, fresh ids never reused, high bit iff quoted, decode inverse, earlier ids unchanged); unions of 2-3 independently built databases with clashing ids (quads, named-graph catalog incl. empty graphs, nested quoted terms, probability seeds, chains and self-unions) are compared with the set union of lexical models, and both inputs must be bit-for-bit unchanged.",
   "Trusted: the shadow maps and lexical models of c15.rs. A term is its lexical value (untyped store).",
